@@ -23,7 +23,7 @@ PREFIX_KINDS = {"mk_group": 6, "mk_object": 12, "add_data": 12, "add_comment": 2
 RO_KINDS = {"mk_group": 4, "mk_object": 5, "add_data": 6, "add_comment": 3, "add_file": 2, "set_values": 5, "rename": 5, "set_flag": 4, "set_meta": 4,
             "move": 3, "move_data": 2, "copy": 5, "rm_ws": 5, "rm_parent": 4, "pg_add": 4, "pg_rm": 2, "pg_del": 2, "pg_new": 2, "type_edit": 3, "mk_dup": 1,
             "observe": 6, "lookup": 4, "list": 4, "gc": 2,
-            "hole_attr": 4, "h_fetch_active": 3, "h_fetch_rplus": 2, "h_monitored_copy": 3, "h_uijson": 3, "copy_out": 4, "copy_in": 3, "reopen_r": 3, "coop_write": 0, "h_save_as_refused": 2, "h_fetch_r_on_closed": 2, "c_pg_rm": 2, "c_set_values": 2, "c_add_data": 1}
+            "hole_attr": 4, "h_fetch_active": 3, "h_fetch_rplus": 2, "h_monitored_copy": 3, "h_uijson": 3, "copy_out": 4, "copy_in": 3, "reopen_r": 3, "coop_write": 0, "h_save_as_refused": 2, "h_save_as_other": 2, "h_fetch_r_on_closed": 2, "c_pg_rm": 2, "c_set_values": 2, "c_add_data": 1}
 
 
 class ReadOnlyScenario(BaseScenario):
@@ -364,6 +364,36 @@ class ReadOnlyScenario(BaseScenario):
                 self.check_mode(ro, "after a refused save_as")
             handle.ws = self.open_ro(world.cfg, path, ro) if world.cfg.get("r_via_open") else Workspace(path, mode="r")
             return "reopened"
+        if kind == "h_save_as_other":
+            # another workspace (in memory, or itself read-only on its own file) is saved under the name of the file R holds,
+            # spelled with or without the extension the library appends: refused, R's file keeps its bytes
+            r = random.Random(H(op["sub"], "other"))
+            spelled = path if r.random() < 0.35 else path.with_suffix("")
+            how = ("memory", "create", "disk_r")[r.randrange(3)]
+            other = None
+            try:
+                if how == "disk_r":
+                    src = sim.path(f"other{op['id']}.geoh5")
+                    Workspace.create(src).close()
+                    other = Workspace(src, mode="r")
+                elif how == "memory":
+                    other = Workspace()
+                try:
+                    if how == "create":
+                        other = Workspace.create(spelled)
+                    else:
+                        other.save_as(spelled)
+                    raised = False
+                except Exception:  # pylint: disable=broad-except
+                    raised = True
+            finally:
+                if other is not None:
+                    other.close()
+            sim.probe("save_as_other_" + ("spelled_bare" if spelled != path else "spelled_full"))
+            if not raised:
+                raise Violation("C10", "write_not_refused", f"saving another workspace ({how}) under the name of the file held read-only ({'without' if spelled != path else 'with'} "
+                                "its extension) did not raise", {"op": "save_as_other", "cls": how})
+            return "ok"
         if kind == "coop_write":
             return "skipped"
         if kind == "h_fetch_rplus":
